@@ -112,6 +112,7 @@ func c9Scripted() []c9scenario {
 		{"side-tips", scenSideTips},
 		{"twin-side-blocks", scenTwinSideBlocks},
 		{"twin-ts-side-blocks", scenTwinTsSideBlocks},
+		{"refused-block-with-mempool-txs", scenRefusedBlockWithMempoolTxs},
 		{"expiry", scenExpiry},
 		{"size-cap", scenSizeCap},
 	}
